@@ -18,7 +18,7 @@ public:
   std::size_t expires_after(const duration& d) {
     std::size_t n = cancel();
     bool mx; int64_t ms = vk::clamp_ms(std::chrono::duration_cast<std::chrono::nanoseconds>(d).count(), mx);
-    _r->dur_ms = ms; _r->max_wait = mx; _r->deadline_ms = mx ? INT64_MAX : vk::world().now_ms + ms;
+    _r->dur_ms = ms; _r->max_wait = mx; _r->deadline_ms = mx ? INT64_MAX : vk_now_ms + ms;
     return n;
   }
   std::size_t cancel() { if (!_r->h) return 0; vk::timer_cancel(_r); return 1; }
